@@ -8,7 +8,7 @@ B = BLOCK
 DECOYS = ["decoy_all", "decoy_some", "decoy_head", "longer", "shorter"]
 
 
-def pick(rng, P, shapes=("D2", "D3", "D4", "S1", "D2n", "DN")):
+def pick(rng, P, shapes=("D2", "D3", "D4", "S1", "D2n", "DN", "DU", "D5")):
     A = [a for a in alphabet(P) if a <= 3 * P + B + 1]
     while True:
         sh = rng.choice(shapes)
